@@ -668,8 +668,16 @@ func c14Run(c c14Case, r *vp.Rec) error {
 				b[i] = vpPattern(k+17, off+i)
 			}
 			off += ch.N
-			if _, err := w.Write(b); err != nil && o.writeErr == nil {
+			_, err := w.Write(b)
+			if err != nil && o.writeErr == nil {
 				o.writeErr = err
+			}
+			if err == nil {
+				// io.Writer: the callee must not retain p. A Write that reported success
+				// before its frame left the server would send these bytes instead.
+				for i := range b {
+					b[i] ^= 0xa5
+				}
 			}
 			if ch.Flush {
 				w.(http.Flusher).Flush()
